@@ -432,6 +432,14 @@ def r13_4(ctx):
                     if isinstance(n.func.value, ast.Name):
                         fresh = any(d.kind == "assign" and isinstance(d.value, ast.Call) and ast.unparse(d.value.func) in ("copy.deepcopy", "deepcopy") and d.value.args
                                     and ast.unparse(d.value.args[0]) == "self" for d in sc.defs.get(n.func.value.id, []))
+                    if not fresh and recv == "self._augmented":
+                        # ... or `self._augmented` right after `self._var_augmented = <that copy>` on the same path
+                        for st in walk_no_nested(f.node):
+                            if isinstance(st, ast.Assign) and ast.unparse(st.targets[0]) == "self._var_augmented" and isinstance(st.value, ast.Name) and sc.order[st] < sc.order[n] \
+                                    and [(ast.unparse(t), p_) for t, p_ in sc.guards(st)] == [(ast.unparse(t), p_) for t, p_ in guards] \
+                                    and any(d.kind == "assign" and isinstance(d.value, ast.Call) and ast.unparse(d.value.func) in ("copy.deepcopy", "deepcopy") and d.value.args
+                                            and ast.unparse(d.value.args[0]) == "self" for d in sc.defs.get(st.value.id, [])):
+                                fresh = True
                     if f.qualname == "Ocp._transcribed":
                         # a query on a copy that already exists must never transcribe: the copy may be a stale one kept alive by an old
                         # solution object, and Ocp._transcribe ends by marking the ORIGINAL as transcribed (the next solve would reuse it)
